@@ -6,34 +6,34 @@ V = os.path.dirname(os.path.abspath(__file__))
 _KANI = "Bounded model checking (Kani 0.68 -> CBMC 6.11 -> CaDiCaL) of the real compiled Rust code: inputs are kani::any() symbolic values, the property is an assertion, unwinding assertions are on, every harness carries a reachability (cover) witness; a counterexample is replayed natively before it is reported. "
 _TB = " Trusted: Kani/CBMC/rustc MIR; the guarded forwarders in /repo (verif_hooks*.rs, add-only)."
 CLAIMED = {
- "C01": dict(text=_KANI + "Decides, for every f64 bit pattern, that status Solved is set iff the documented inequalities hold on the termination quantities, and (exactly, over GF(13)) that the returned x,s,z are the iterate with equilibration and homogenisation undone. That the IPM reaches such an iterate is not decided.",
-   note="Reduced scope: verdict logic + unscale/post-process kernels (n=m=2). Outside: convergence, norm rounding, PSD, faer. Assumes check_termination is entered with status Unsolved (decided in C04)." + _TB, design="DESIGN.md §3 C01, §6"),
- "C02": dict(text=_KANI + "Decides, for every f64 bit pattern, that PrimalInfeasible/DualInfeasible are set iff the documented certificate inequalities hold (primal first), that objectives are NaN iff the status is an infeasibility verdict, and that certificates are normalised by kappa in the user's coordinates (GF(13)).",
-   note="Reduced scope: verdict logic and reporting kernels. Outside: that a certificate is found; size of A'z." + _TB, design="DESIGN.md §3 C02, §6"),
+ "C01": dict(text=_KANI + "Decides, for every f64 bit pattern of every termination quantity and tolerance, that status Solved is set iff the documented inequalities hold; exactly over GF(13) that the returned x,s,z are the iterate with equilibration and homogenisation undone; and that every termination quantity (costs, residuals, gaps, kappa/tau) computed by the real DefaultResiduals::update + DefaultInfo::update from the equilibrated presentation equals the one computed from the user's data with the unscaled iterate (GF(13) with symbolic scalings d,e; f64 with power-of-two scalings in the thorough tier); cached norms of q and b are the norms of the user's data after updates. That the IPM reaches such an iterate is not decided.",
+   note='Reduced scope: verdict logic + termination quantities + unscale/post-process kernels (n=1..2, m=1..2). Outside: convergence, rounding of norms, PSD, faer. Assumes check_termination is entered with status Unsolved (decided in C04).' + _TB, design="DESIGN.md §3 C01, §6"),
+ "C02": dict(text=_KANI + "Decides, bit-precisely at f64, that PrimalInfeasible/DualInfeasible are set iff the documented certificate inequalities hold (primal first) and AlmostPrimal/DualInfeasible only under the reduced tolerances from an error/limit status; that objectives are NaN iff the status is an infeasibility verdict; and (GF(13)) that certificates are normalised by kappa in the user's coordinates.",
+   note="Reduced scope: verdict logic and reporting kernels. The two products the oracle recomputes take ONE factor from {+-2^k, 0, inf, NaN} (two harnesses swap which); everything else all f64. Outside: that a certificate is found; size of A'z." + _TB, design="DESIGN.md §3 C02, §6"),
  "C03": dict(text=_KANI + "Decides that Almost* statuses arise only from error/limit statuses and only under the reduced tolerances, that rollback restores the saved iterate bit-for-bit, and that what the user reads (status, objectives, residuals, iterations, time, vectors) is what the solver holds.",
    note="Reduced scope. Outside: agreement of reported residual figures with an independent recomputation (floating-point norms)." + _TB, design="DESIGN.md §3 C03, §6"),
  "C04": dict(text=_KANI + "Runs the REAL generic Solver::solve main loop with stub components returning arbitrary values and the REAL DefaultInfo verdict logic: for all numerical behaviours the loop returns, in a terminal status, within max_iter iterations and max_iter+2 passes, stopping at the first check after the time limit. Plus: dimension checks reject exactly the inconsistent inputs.",
    note="Bounds max_iter<=2 quick / <=4 thorough. Outside: panics/hangs inside the numeric components for extreme data; wall clock. Stubs: Timers methods, RandomState::new, barrier search cut to 3 evaluations." + _TB, design="DESIGN.md §3 C04, §6"),
  "C05": dict(text=_KANI + "Decides only ONE normalisation that turns equivalent inputs into the identical internal problem: a full symmetric P is reduced to the canonical upper triangle and a triu P is taken as is (CscMatrix::to_triu / is_triu, all 2x2 patterns, symbolic values).",
    note="Cone collapsing (split/merged nonnegative cones) is NOT decided (Vec<enum> output: intractable, DESIGN 6.2.15). Everything else in C05 (permutations, scaling, backends, threads, concurrency, repeatability) compares end-to-end floating-point runs: NOT decided." + _TB, design="DESIGN.md §3 C05, §6"),
- "C07": dict(text=_KANI + "Decides that the tau/kappa step length lies in [0,1], that NN/SOC step lengths lie in [0, alpha_max] for every f64, and that the termination verdict is independent of the remaining iteration budget.",
-   note="Reduced scope. Outside: strict interiority after a step for SOC/exp/pow/PSD; tau',kappa'>0 after the step (rounded product)." + _TB, design="DESIGN.md §3 C07, §6"),
- "C08": dict(text=_KANI + "Decides the public update traits that update_P/q/A/b delegate to, for every argument form: accepted updates write value*scale*c at the true coordinates (exact over GF(13)); wrong lengths, out-of-range indices and pattern mismatches are errors that leave whole-vector/matrix targets untouched; empty updates are no-ops; cached norms are recomputed.",
-   note="Outside: live DefaultSolver guard (presolve/decomposition active) and KKT synchronisation (needs AMD); see C11/C12 for the index maps." + _TB, design="DESIGN.md §3 C08, §6"),
- "C09": dict(text=_KANI + "Decides the presolver end to end at the kernel level: which rows are dropped (all f64 incl. NaN/inf), the reduced A,b,cones, the restoration of s,z at the user's length with z=0 and s=bound, and that the bound is captured at construction.",
-   note="m=4, 8 cone layouts, enumerated A patterns/drop masks with symbolic values. Outside: that the reduced solve is a solve of the hand-reduced problem (IPM)." + _TB, design="DESIGN.md §3 C09, §6"),
- "C10": dict(text=_KANI + "Decides on the REAL generic equilibrate over GF(13), for all data and two Ruiz sweeps, that the factors applied to P,q,A,b are exactly the recorded d,e,c, that dinv,einv are their inverses and that E is constant over non-scalar cones; at f64 that disabling leaves the data untouched and zero rows/columns stay unscaled.",
-   note="Outside: cumulative factors within [min,max] (rounded f64 products); PSD." + _TB, design="DESIGN.md §3 C10, §6"),
- "C11": dict(text=_KANI + "Decides the KKT assembly: every P, A, diagonal, Hs-block and sparse-expansion entry sits at its recorded position with the user's value, index sets are disjoint and cover K, in both triangles; and that the dense/sparse SOC block written into K is the operator mul_Hs (GF(p)).",
-   note="n=2, enumerated P patterns / cone layouts, symbolic A pattern. Outside: GenPow expansion, regularise/refactor/restore cycle (needs a live LDL engine)." + _TB, design="DESIGN.md §3 C11, §6"),
+ "C07": dict(text=_KANI + 'Decides that the tau/kappa step length lies in [0,1] and is the exact distance to the boundary, that NN/SOC step lengths lie in [0, alpha_max] for every f64, and - by running the real main loop with a POISONED iteration budget - that nothing but the termination check reads the remaining budget and every step taken under dual scaling was the one last accepted by the barrier test.',
+   note="Reduced scope. Outside: strict interiority after a step for SOC/exp/pow/PSD; tau',kappa'>0 after the step (two roundings of a product). The clock is a model validated natively against the real Timers (tv_timers)." + _TB, design="DESIGN.md §3 C07, §6"),
+ "C08": dict(text=_KANI + "Decides the public update traits that update_P/q/A/b delegate to, for every argument form: accepted updates write value*scale*c at the true coordinates (exact over GF(13)); wrong lengths, out-of-range indices and pattern mismatches are errors that leave whole-vector/matrix targets untouched; empty updates are no-ops; cached norms are recomputed; and the real DirectLDLKKTSolver::update_P/update_A/update push every new value into the LDL engine's own copy (mirror engine) while the solver's KKT copy keeps an unregularised diagonal.",
+   note='Outside: check_data_update_allowed on a live DefaultSolver (constructing one needs AMD); end-to-end agreement of the following solve.' + _TB, design="DESIGN.md §3 C08, §6"),
+ "C09": dict(text=_KANI + "Decides the presolver at the kernel level: which rows are dropped (all f64 incl. NaN/inf), the reduced A,b,cones, the restoration of s,z at the user's length with z=0 and s=bound, that the bound is captured at construction, and - through the REAL DefaultProblemData::new with an active presolver - that rows of other cones at or above the bound are capped, never dropped.",
+   note='m=4, 8 cone layouts, enumerated A patterns/drop masks with symbolic values. Outside: that the reduced solve is a solve of the hand-reduced problem (IPM).' + _TB, design="DESIGN.md §3 C09, §6"),
+ "C10": dict(text=_KANI + 'Decides on the REAL generic equilibrate over GF(13), for all data (one Ruiz sweep quick, two thorough), that the factors applied to P,q,A,b are exactly the recorded d,e,c, that dinv,einv are their inverses and that E is constant over non-scalar cones; at f64 that disabling leaves the data untouched, zero rows/columns stay unscaled, and (data = powers of two over 24 orders of magnitude) the cumulative d,e,c stay within [min,max].',
+   note='Outside: cumulative bounds for general significands (rounded products); PSD.' + _TB, design="DESIGN.md §3 C10, §6"),
+ "C11": dict(text=_KANI + "Decides the KKT assembly: every P, A, diagonal, Hs-block and second-order-cone sparse-expansion (u, v, D) entry sits at its recorded position with the user's value, index sets are disjoint and cover K, in both triangles; that the dense/sparse SOC block written into K is the operator mul_Hs (GF(7)); and that regularise/refactor/restore keeps the engine's copy in sync and the solver's copy unregularised (mirror engine).",
+   note='n=2; enumerated P patterns, A patterns and cone layouts incl. [SOC5], [SOC2,SOC5], symbolic values. Sparse layouts go through the hook assemble_kkt_matrix_soc_store (validated natively by tv_kkt). Outside: GenPow expansion; the real LDL engines.' + _TB, design="DESIGN.md §3 C11, §6"),
  "C12": dict(text=_KANI + "Decides the QDLDL unit chain: permutation validation/inversion, symmetric permutation map, elimination tree + factorisation (L D L' = A exactly over GF(13) for all values, Ok iff all leading minors nonzero), triangular solves, refactor = fresh factor, regularisation/inertia logic at f64.",
    note="n<=3 quick / n<=4 thorough; patterns enumerated, values/perms symbolic. Outside: backward stability, AMD." + _TB, design="DESIGN.md §3 C12, §6"),
- "C13": dict(text=_KANI + "Decides over GF(p), for all field values, the NT identities of the NN and SOC cones as computed by the real generic code: W W^-1 = I, W symmetric, (W'W) z = s, W z = W^-T s = +-lambda, Hs = W'W = KKT block (dense and sparse expansion), Jordan product laws, affine and corrector terms.",
-   note="SOC dim 3/5, NN dim 2. Outside: floating-point conditioning; PSD (LAPACK); sign of nested roots." + _TB, design="DESIGN.md §3 C13, §6"),
+ "C13": dict(text=_KANI + "Decides over GF(7) (GF(13) thorough), for all field values, operator identities of the NN and SOC scalings as computed by the real generic code: W^-1 W = W W^-1 = I, W symmetric, mul_W's alpha/beta form, Hs = W'W = the KKT block (dense, and the sparse expansion eta^2(D+uu'-vv') in dimension 5), w normalised and eta^4 = res(s)/res(z), Jordan product laws, affine and corrector terms; NN: Hs z = s, lambda^2 = s o z, W^-1 W = I, the ds offset.",
+   note="SOC dim 3/5, NN dim 2. Outside: the SOC Nesterov-Todd identity (W'W) z = s itself (depends on a coherent choice of nested square roots, no meaning in a field: DESIGN 6.6); floating-point conditioning; PSD (LAPACK)." + _TB, design="DESIGN.md §3 C13, §6"),
  "C14": dict(text=_KANI + "Runs the REAL generic exp/pow cone code at first-order jets over GF(13) (exact differentiation; ln/powf uninterpreted with their derivative rules) and decides that the stored gradient is the derivative of the dual barrier and the stored Hessian the derivative of the gradient, that the dual-scaling fallback is mu*H, and that the explicit 3x3 Cholesky factorisation used by the third-order correction satisfies L L' = H (fails only for a vanishing leading minor).",
    note="Outside: higher_correction == -1/2 third derivative (attempted in five formulations, SAT does not finish within an hour: DESIGN 6.2.19), membership predicates, conjugacy of gradient_primal, primal-dual scaling matrix, unit_initialization, generalised power cone." + _TB, design="DESIGN.md §3 C14, §6"),
- "C15": dict(text=_KANI + "Decides, bit-precisely for every f64, that SOC/NN/zero/composite step lengths lie in [0, alpha_max], that the NN ratio test is exact, that the backtracking search returns the first accepted candidate (within one factor) for an ARBITRARY membership oracle, and that the NN shift places points strictly inside.",
-   note="Outside: numerical tightness of the SOC root; exp/pow membership; PSD." + _TB, design="DESIGN.md §3 C15, §6"),
+ "C15": dict(text=_KANI + 'Decides, bit-precisely for every f64, that SOC/NN/zero/composite step lengths lie in [0, alpha_max], that the NN ratio test is exact (power-of-two data), that the backtracking search returns the first accepted candidate for an ARBITRARY membership oracle, however many reductions it takes (up to 71), and 0 - never an untested value - when every candidate down to alpha_min is rejected, and that the NN shift places points strictly inside.',
+   note='Outside: numerical tightness of the SOC root; exp/pow membership predicates; PSD.' + _TB, design="DESIGN.md §3 C15, §6"),
  "C16": dict(text=_KANI + "Decides the CSC operations against their dense meaning: check_format = canonical predicate, queries, transpose, dropzeros, to_triu, select_rows, triplets, set_entry, concatenation, gemv/symv/quad_form/scalings/sums (exact over GF(13)), norms (f64).",
    note="Shapes <= 3x3/4x2. Symbolic patterns where the result size is data independent, enumerated patterns with symbolic values otherwise." + _TB, design="DESIGN.md §3 C16, §6"),
  "C17": dict(text=_KANI + "Decides ONLY the hash-free units of the chordal analysis: union-find (inductively: one query/union from an arbitrary valid state on 8 elements), Kruskal spanning forest on weighted clique graphs, graph connection, aggregate sparsity mask.",
